@@ -110,7 +110,8 @@ RegistryT<ArgsT<TG_, TSL_, TRL_, NCC_, NOC_, NOU_, TRO_ HFSM2_IF_SERIALIZATION(,
 			HFSM2_ASSERT(parent.forkId != 0);
 
 			if (parent.forkId > 0)
-				return compoRequested[parent.forkId - 1] !=
+				return compoRequested[parent.forkId - 1] != INVALID_PRONG &&
+					   compoRequested[parent.forkId - 1] !=
 					   compoActive	 [parent.forkId - 1];
 		}
 
@@ -132,6 +133,7 @@ RegistryT<ArgsT<TG_, TSL_, TRL_, NCC_, NOC_, NOU_, TRO_ HFSM2_IF_SERIALIZATION(,
 
 			if (parent.forkId > 0)
 				return parent.prong == compoActive	 [parent.forkId - 1] &&
+					   compoRequested[parent.forkId - 1] != INVALID_PRONG &&
 					   parent.prong != compoRequested[parent.forkId - 1];
 		}
 
